@@ -114,6 +114,60 @@ def _helper_class(prog: Program, typ) -> Optional[ClassInfo]:
     return None
 
 
+def definite_effects(prog: Program, cls: ClassInfo, method: FuncInfo, object_fields: Set[str], stop: Optional[ClassInfo], seen: Set[str]) -> Set[str]:
+    """Fields assigned / cleared, and helper calls made, on every normal path through ``method``
+    (forward must-analysis over its CFG; ``self.m()`` contributes m's definite effects)."""
+    if method.qualname in seen or not method.params or method.kind not in ("instance",):
+        return set()
+    seen = seen | {method.qualname}
+    me = method.params[0]
+    cfg = CFG(method.node, raising=lambda n: False)
+    gen: Dict[int, Set[str]] = {}
+    for node in cfg.nodes:
+        facts: Set[str] = set()
+        stmt = node.ast_node
+        if stmt is not None and node.kind in ("stmt", "with"):
+            holder = ast.FunctionDef(name=method.name, args=method.node.args, body=[stmt] if isinstance(stmt, ast.stmt) else [ast.Expr(value=stmt)], decorator_list=[], lineno=getattr(stmt, "lineno", 1), col_offset=0)
+            pseudo = FuncInfo(name=method.name, qualname=method.qualname + "#stmt", node=holder, module=method.module, cls=method.cls, kind="instance", params=list(method.params))
+            if isinstance(stmt, (ast.If, ast.For, ast.While, ast.Try, ast.With)):
+                eff = None
+            else:
+                eff = self_effects(pseudo, object_fields)
+            if eff is not None:
+                facts |= set(eff.kills)
+                for name, called, _ in eff.calls:
+                    facts.add(f"call:{name}:{called}")
+                for sub in ast.walk(stmt):
+                    if isinstance(sub, ast.Call) and isinstance(sub.func, ast.Attribute) and isinstance(sub.func.value, ast.Name) and sub.func.value.id == me:
+                        callee = cls.find_method(sub.func.attr)
+                        if callee is not None and callee.cls is not None and callee.cls != stop:
+                            facts |= definite_effects(prog, cls, callee, object_fields, stop, seen)
+        gen[node.nid] = facts
+    reachable = set(cfg.reachable_from([cfg.entry], labels={"next", "true", "false"}).keys())
+    universe: Set[str] = set()
+    for facts in gen.values():
+        universe |= facts
+    out: Dict[int, Set[str]] = {nid: set(universe) for nid in reachable}
+    out[cfg.entry] = set()
+    changed = True
+    while changed:
+        changed = False
+        for nid in sorted(reachable):
+            if nid == cfg.entry:
+                continue
+            preds = [p for p, label in cfg.pred[nid] if p in reachable and label != "exc"]
+            incoming = set(universe)
+            for pred in preds:
+                incoming &= out[pred]
+            if not preds:
+                incoming = set()
+            new = incoming | gen.get(nid, set())
+            if new != out[nid]:
+                out[nid] = new
+                changed = True
+    return out.get(cfg.exit, set())
+
+
 def unreset_fields(prog: Program, cls: ClassInfo, run_roots: List[str], kill_roots: List[str], stop: Optional[ClassInfo],
                    depth: int = 0, seen: Optional[Set[str]] = None) -> List[Tuple[ClassInfo, str, FuncInfo, ast.AST]]:
     seen = seen or set()
@@ -134,11 +188,17 @@ def unreset_fields(prog: Program, cls: ClassInfo, run_roots: List[str], kill_roo
             run_calls.setdefault(name, set()).add(method)
     killed: Set[str] = set()
     kill_calls: Dict[str, Set[str]] = {}
-    for func in kill:
-        eff = self_effects(func, object_fields)
-        killed |= set(eff.kills)
-        for name, method, _ in eff.calls:
-            kill_calls.setdefault(name, set()).add(method)
+    # only what happens on EVERY path through the reset entry counts as a reset
+    for root in kill_roots:
+        method = cls.find_method(root)
+        if method is None or method.cls is None or method.cls == stop:
+            continue
+        for fact in definite_effects(prog, cls, method, object_fields, stop, set()):
+            if fact.startswith("call:"):
+                _, name, called = fact.split(":", 2)
+                kill_calls.setdefault(name, set()).add(called)
+            else:
+                killed.add(fact)
     out: List[Tuple[ClassInfo, str, FuncInfo, ast.AST]] = []
     for name, (func, node) in sorted(written.items()):
         if name not in killed:
